@@ -1166,6 +1166,7 @@ func runC19(ctx *Ctx) {
 		}
 		v := c19GenVal(ctx, depth)
 		d19ProbeOracle(ctx, v)
+		c19BuiltPathsCase(ctx, v)
 		wlog := c19WalkCase(ctx, v)
 		c19TransformCase(ctx, v, wlog)
 		c19MarksCase(ctx, v)
